@@ -16,7 +16,10 @@ namespace C06D
   identities ≥ 500000 are non-tensor entries: tensor collections without tensor leaves, invisible to `leaves_only` reads -/
 def isTensorLeaf : Ent → Bool
   | .leaf o => o < 500000
-  | .node _ => false
+  | _ => false
+
+/-- the reads the harness canonicalises are functions of the bindings; the attributes are observed by the monitor -/
+def noAttr (c : Content) : Content := c.filter (fun p => match p.2 with | .attr _ _ => false | _ => true)
 
 def keep (incNested leavesOnly : Nat) (p : List String × Ent) : Bool :=
   (incNested != 0 || p.1.length == 1) && (leavesOnly == 0 || isTensorLeaf p.2)
@@ -47,20 +50,22 @@ def stopAtNodes (c : Content) : Content :=
   c.filter (fun p => p.1.length == 1)
 
 def sem : Sem where
-  obs := fun q c => match q with
+  obs := fun q c0 => let c := noAttr c0; match q with
     | (0, [.val a, .val b]) => c.filter (keep a b)
     | (1, [.val a, .val b]) => c.filter (keep a b)
     | (2, _) => dropIds (c.filter (keep 0 0))
-    | (3, _) => [([], Ent.leaf (maxLen (c.filter (fun p => match p.2 with | .leaf _ => true | .node _ => false))))]   -- `is_leaf=_is_leaf_nontensor`
+    | (3, _) => [([], Ent.leaf (maxLen (c.filter (fun p => match p.2 with | .leaf _ => true | _ => false))))]   -- `is_leaf=_is_leaf_nontensor`
     | (5, _) => keyList c
     | (7, [.val k]) => lazyGet (kidKey k) c
     | (6, [.val a, .val b, .obj o]) =>
         if o % 2 == 1 then dropIds (c.filter (fun p => a != 0 || p.1.length == 1))   -- `is_leaf ≡ True`: every entry counts
         else dropIds (c.filter (keep a b))
     | _ => []
+  -- 4 `flatten_keys(".")`, 8 `_add_batch_dim(in_dim, vmap_level)` (the memo of `torch.vmap`), 9 `detach()`: a new tensordict over
+  -- the same storages (8, 9: rendered flat, each entry by the leaf it wraps / shares its storage with)
   build := fun _ c => c.filterMap (fun p => match p.2 with
     | .leaf o => some (".".intercalate p.1, o, 0)
-    | .node _ => none)
+    | _ => none)
 
 def arg? : Sexp → Option Arg
   | .list [.atom "obj", o, a] => do pure (.obj (← asNat? o) (← asNat? a))
@@ -69,13 +74,20 @@ def arg? : Sexp → Option Arg
 def cev? : Sexp → Option CEv
   | .list (.atom "read" :: i :: m :: args) => do
       let m ← asNat? m
-      pure (.read (← asNat? i) { meth := m, args := ← args.mapM arg?, allocates := m == 4, tensorValued := false })
+      pure (.read (← asNat? i) { meth := m, args := ← args.mapM arg?, allocates := m == 4 || m == 8 || m == 9, tensorValued := false })
   | .list [.atom "rebind", i, .atom k, o] => do pure (.rebind (← asNat? i) k (← asNat? o))
+  | .list [.atom "attr", i, f, v, d] => do pure (.setAttr (← asNat? i) (← asNat? f) (← asNat? v) (← asNat? d))
+  | .list [.atom "mmap", i, .list news] => do
+      let ns ← news.mapM (fun e => match e with
+        | .list [j, .atom k, o] => do pure ((← asNat? j, k), ← asNat? o)
+        | _ => none)
+      pure (.memmap (← asNat? i) ns)
   | s => do pure (.base (← C05D.ev? s))
 
 def entSexp : Ent → Sexp
   | .leaf o => .list [.atom "l", ofNat o]
   | .node j => .list [.atom "n", ofNat j]
+  | .attr f v => .list [.atom "a", ofNat f, ofNat v]
 
 def contentSexp (c : Content) : Sexp :=
   .list (c.map (fun p => .list [.list (p.1.map .atom), entSexp p.2]))
@@ -97,7 +109,8 @@ partial def runC (s : CState) : List Sexp → List Sexp → Option (List Sexp)
             | .value c => Sexp.list [.atom "value", contentSexp c]
             | .object o => Sexp.list [.atom "object", ofNat o,
                 .list (((r.1.heap.node o).leaves).map (fun l => .list [.atom l.1, ofNat l.2.1]))]
-          runC r.1 rest (Sexp.list [.atom (hitAtom r.2.2), res] :: acc)
+          let sizes := (List.range r.1.heap.size).map (fun j => ofNat (r.1.cache j).length)
+          runC r.1 rest (Sexp.list [.atom (hitAtom r.2.2), res, .list sizes] :: acc)
         else runC s rest (Sexp.atom "other" :: acc)
       | _ =>
         let r := cstep sem s ev
